@@ -140,7 +140,7 @@ def random_project(
     dirs, files = random_layout(rnd, root, depth, names=names)
     mods_files = [mod_of(root, f) for f in files]
     mods_dirs = [mod_of(root, d) for d in dirs if d]
-    targets = [m for m in mods_files + mods_dirs]
+    targets = [m for m in mods_files + mods_dirs if all(part.isidentifier() for part in m.split('.'))]
     spec_files = {}
     for f in files:
         me = mod_of(root, f)
@@ -172,9 +172,11 @@ def random_project(
     spec = {"root": root, "dirs": [d for d in dirs if d], "files": spec_files}
     if extras:
         if rnd.random() < 0.5:
-            spec["files"][(rnd.choice(dirs) + "/" if rnd.choice(dirs) else "") + "README.txt"] = "import proj.nothing\n"
+            d = rnd.choice(dirs)
+            spec["files"][(d + "/" if d else "") + "README.txt"] = "import proj.nothing\n"
         if rnd.random() < 0.4:
-            spec["dirs"].append((rnd.choice(dirs) + "/" if rnd.random() < 0.5 and rnd.choice(dirs) else "") + "emptydir")
+            d = rnd.choice(dirs)
+            spec["dirs"].append((d + "/" if d else "") + "emptydir")
     return spec
 
 
